@@ -47,6 +47,8 @@ def run_shard(desc, ctx):
         run_case({'seed': [desc['seed'], desc['shard'], i], 'source': 'generated'}, ctx)
     for i in range(desc['merged']):
         run_case({'seed': [desc['seed'], desc['shard'], i, 14], 'source': 'merged'}, ctx)
+    if desc['shard'] < 2:
+        run_case({'seed': [desc['seed'], desc['shard'], 555], 'source': 'generated', 'batch': True}, ctx)
 
 
 def run_case(case, ctx):
